@@ -604,6 +604,21 @@ func runG8(c *Ctx, roots []*ssa.Function) {
 				bad = append(bad, fn.String()+" via "+pathString(path))
 			}
 		}
+		// package-level variables of the standard library whose value depends on the process environment
+		for fn, path := range reach {
+			if !c.P.fnIndex[fn] {
+				continue
+			}
+			for _, b := range fn.Blocks {
+				for _, in := range b.Instrs {
+					for _, op := range in.Operands(nil) {
+						if g, ok := (*op).(*ssa.Global); ok && g.Pkg != nil && envGlobals[g.Pkg.Pkg.Path()+"."+g.Name()] {
+							bad = append(bad, "reads "+g.Pkg.Pkg.Path()+"."+g.Name()+" (depends on the process environment) in "+shortName(fn)+" via "+pathString(path))
+						}
+					}
+				}
+			}
+		}
 		sort.Strings(bad)
 		c.Stats["G8 functions reachable from "+shortName(r)] = n
 		if len(bad) > 0 {
@@ -613,3 +628,6 @@ func runG8(c *Ctx, roots []*ssa.Function) {
 		}
 	}
 }
+
+// envGlobals: library variables that differ from process to process for the same input.
+var envGlobals = map[string]bool{"time.Local": true, "os.Args": true, "os.Stdin": true}
